@@ -1,5 +1,5 @@
 (* C02 - session lockstep: each call returns exactly the replies to its own commands. *)
-From LibFtp Require Import Bytes Decimal Reply Endpoint Ascii DataConn DataConn_Proofs Client Client_Proofs Login_Proofs Transfer_Proofs Transfer_More Modes_Proofs Ctl_Proofs History_Proofs Session_Proofs.
+From LibFtp Require Import Bytes Decimal Reply Endpoint Ascii DataConn DataConn_Proofs Client Client_Proofs Login_Proofs Transfer_Proofs Transfer_More Modes_Proofs Ctl_Proofs History_Proofs History2_Proofs Session_Proofs.
 Local Open Scope N_scope.
 
 (* The unit of lockstep: from a state in which nothing is unread or pending, "send one command, receive its reply"
@@ -127,6 +127,16 @@ Theorem C02_lockstep_mixed_histories : forall cs rss xss w rest,
   w_script (snd (steps w cs)) = w_script w.
 Proof. exact lockstep_mixed_histories. Qed.
 Print Assumptions C02_lockstep_mixed_histories.
+
+(* ... and for EVERY configuration - passive and active modes, EPSV / PASV / EPRT / PORT, plain and TLS sessions
+   ([historyK], History2_Proofs.v: as [history], with the accepted transfers and the refusals of all four data-connection
+   methods, TLS data handshakes and shutdowns included; the kit = mode, RFC 2428 flag, TLS, advertised endpoint is fixed
+   along the history and proved unchanged by every call) *)
+Theorem C02_lockstep_all_configurations : forall cs rss xss w rest,
+  InvK w (rss ++ rest) -> historyK (kit_of w) (c_type (w_cfg w)) cs rss xss ->
+  map outcome_replies (fst (steps w cs)) = map Some xss /\ InvK (snd (steps w cs)) rest.
+Proof. exact lockstep_all_configurations. Qed.
+Print Assumptions C02_lockstep_all_configurations.
 
 (* non-vacuity: see ex_history in History_Proofs.v (NOOP, download, TYPE A, refused upload, PWD) *)
 Example C02_example_history_runs :
